@@ -1,5 +1,6 @@
 import DmrVerif.Lemmas.RsKernel
 import DmrVerif.Lemmas.RsSub
+import DmrVerif.Lemmas.RsStation
 
 /-!
 # C11 — Reed–Solomon (12,9) over GF(2^8): parity, exact checker, distance 4
@@ -321,6 +322,44 @@ theorem two_root_checker_misses (u v k : Nat)
     · exact hv
   · exact detect_le3_xor d mask _ _ hd hm bd bm (generate_eq d mask hd) hl hb (by omega) (by omega)
 
+/-! ## stationary register: fixed points of the loop body of `generate`
+
+The universal statements above (`gen_syndromes`, `check_iff`, `detect_le3`) hold for every message, in particular for
+those on which a pass of the loop changes nothing.  The statements below describe that input class exactly, so that the
+differential run can construct it (`stationary_msgs` in `harness/props/c11.py`): random messages meet it with
+probability 2⁻²⁴ per step, basis / constant / two-valued messages never. -/
+
+/-- Consuming one more octet `x` leaves the register of `generate` unchanged exactly if the register is the fixed point
+`fixOf s` of its feedback symbol `s = x ^^^ parity[2]`. -/
+theorem stationary_iff (pre : Bytes) (x : Nat) :
+    parity (pre ++ [x]) = parity pre ↔ parity pre = fixOf (Nat.xor x (parity pre).2.2) := by
+  rw [parity_snoc]; exact step_eq_self_iff _ _
+
+/-- Every feedback symbol `s` has such a message prefix at every step from the fourth on: after `n` zero octets and the
+three octets `s·01, s·0f, s·37` the register is `fixOf s`, and it stays there for as long as the octet `fixSym s = s·77`
+is repeated (`j` times, any `j`).  The 256 registers `fixOf s` are pairwise different, so for `s ≠ 0` this is not the
+zero register. -/
+theorem stationary_reached (s n j : Nat) (hs : s < 256) :
+    parity (List.replicate n 0 ++ [logMultiply s 0x01, logMultiply s 0x0f, logMultiply s 0x37]
+      ++ List.replicate j (fixSym s)) = fixOf s ∧
+    fixSym s = logMultiply s 0x77 ∧ (∀ t, t < 256 → fixOf t = fixOf s → t = s) := by
+  refine ⟨?_, (reach_spec s hs).2, fun t ht h => fixOf_inj t s ht hs h⟩
+  rw [List.append_assoc, parity_zeros_append]
+  unfold parity
+  rw [List.foldl_append]
+  have := (reach_spec s hs).1
+  unfold parity at this
+  rw [this, foldl_step_fix]
+
+/-- The register leaves the fixed point as soon as any OTHER octet arrives: if consuming `x` changes nothing, consuming
+`y ≠ x` instead does change the register — so the octets after a stationary pass cannot be skipped on the grounds that
+"the register no longer moves" unless every one of them equals `x`. -/
+theorem stationary_leaves (pre : Bytes) (x y : Nat) (bp : isBytes pre = true) (hx : x < 256) (hy : y < 256)
+    (h : parity (pre ++ [x]) = parity pre) (hne : y ≠ x) : parity (pre ++ [y]) ≠ parity pre := by
+  intro h2
+  rw [parity_snoc] at h h2
+  exact hne (stationary_octet_unique _ y x (parity_lt pre bp) hy hx h2 h)
+
 /-! ## non-vacuity: a captured voice LC header of the repository's own test, and corruptions of it -/
 
 example : isBytes [3, 0, 0, 0x26, 0x35, 0xa9, 0x03, 0xd4, 0x75] = true ∧
@@ -367,6 +406,15 @@ example : subWitness 1 2 9 10 11 = [0, 0, 0, 0, 0, 0, 0, 0, 0, 6, 20, 48] := by 
 /-- distance 4 is attained (the bound of `min_distance` is sharp): two messages whose words differ in
 exactly four positions -/
 example : symDist (encode [0, 0, 0, 0, 0, 0, 0, 0, 0] [0, 0, 0]) (encode [0, 0, 0, 0, 0, 0, 0, 0, 1] [0, 0, 0]) = 4 := by
+  decide +kernel
+
+/-- a stationary pass (`stationary_iff` is not vacuous): after `c3 25 9a` the register is `fixOf 0xc3`, the octet
+`0x10 = fixSym 0xc3` leaves it unchanged, the next octet `0x12` moves it; the word of the whole message -/
+example : parity [0xc3, 0x25, 0x9a] = fixOf 0xc3 ∧ fixSym 0xc3 = 0x10 ∧
+    parity [0xc3, 0x25, 0x9a, 0x10] = parity [0xc3, 0x25, 0x9a] ∧
+    parity [0xc3, 0x25, 0x9a, 0x10, 0x12] ≠ parity [0xc3, 0x25, 0x9a] ∧
+    generate [0xc3, 0x25, 0x9a, 0x10, 0x12, 0x34, 0x56, 0x78, 0x10] rsMaskTerminatorWithLC
+      = some [0xc3, 0x25, 0x9a, 0x10, 0x12, 0x34, 0x56, 0x78, 0x10, 0x31, 0x69, 0x7b] := by
   decide +kernel
 
 end Dmr.C11
